@@ -213,6 +213,59 @@ pub fn run_stats_rt(
             }
         }
     }
+    // --- a stored byte of the file goes bad (0xFF: no text at all any more): whatever statistic it belonged to no
+    // longer has its value
+    if !fatal && !stats_text.is_empty() {
+        let mut c = bb.clone();
+        c.input_stats_bad_byte_at = Some(out.key as usize);
+        let rc = ex.exec(&c);
+        ex.fault("stored_byte_of_the_statistics_file_goes_bad");
+        if let Some(f) = check_orderly(&rc) {
+            out.fail = Some(f);
+            return out;
+        }
+        if !mismatch_reported(&rc) || rc.status != exit_code {
+            out.fail = fail(
+                "bad-stored-byte-not-reported",
+                format!(
+                    "byte {} of the statistics file set to 0xFF: mismatch reported = {}, status {} (expected {exit_code}) [cmd: {}]",
+                    out.key as usize % stats_text.len(),
+                    mismatch_reported(&rc),
+                    rc.status,
+                    c.cmdline()
+                ),
+            );
+            return out;
+        }
+    }
+    // --- the run writes its statistics to the very file it compares with ("verify, then refresh the baseline"):
+    // a changed statistic in that file is still a mismatch
+    if !fatal && !bb.argv.iter().any(|x| x == "-S" || x == "--output-stats") {
+        let path: Vec<String> = vec!["rdh_stats".into(), "rdhs_seen".into()];
+        if let Some(text) = perturb(&doc, &path).and_then(|d| render(&d, &ext)) {
+            let mut c = bb.clone();
+            c.input_stats = Some(text);
+            c.argv.extend(["-S".to_string(), "@INSTATS@".to_string(), "-D".to_string(), ext.clone()]);
+            let rc = ex.exec(&c);
+            ex.fault("stored_statistic_perturbed_in_the_file_the_run_also_writes");
+            if let Some(f) = check_orderly(&rc) {
+                out.fail = Some(f);
+                return out;
+            }
+            if !mismatch_reported(&rc) || rc.status != exit_code {
+                out.fail = fail(
+                    "leaf-drift-not-reported-when-the-run-writes-the-same-file:rdh_stats.rdhs_seen",
+                    format!(
+                        "rdhs_seen changed in the file that the run compares with and writes to: mismatch reported = {}, status {} (expected {exit_code}) [cmd: {}]",
+                        mismatch_reported(&rc),
+                        rc.status,
+                        c.cmdline()
+                    ),
+                );
+                return out;
+            }
+        }
+    }
     // --- drift seen by a run that collects less: a file written by the stave checks (it holds ALPIDE statistics)
     // compared by the same check without the stave level - what both collect must still be compared
     if !fatal && a.argv.iter().any(|x| x == "its-stave") && a.argv.iter().any(|x| x == "all") {
